@@ -15,6 +15,7 @@ they are all 'close' to each other.
 Tables are also changed while a step is in progress (weights set to zero in place, through add_move under the existing
 name, or by a new entry): no weight-zero move may be chosen from the next slot on.
 Some tables carry weights normalised by hand to a few digits (their sum is one only to within 1e-4 .. 1e-8).
+Some drivers leave max_cycles at the documented default (one cycle per atom), which is then the configured number.
 """
 from __future__ import annotations
 
@@ -34,7 +35,7 @@ ASSUMPTIONS = [
     "tables whose due moves all have weight zero while free slots remain are outside the quantifier and are not generated",
     "distribution clause decided by binomial z (|z|>5 flagged, re-measured once with 4x the steps and fresh seed; violation only if flagged again with the same sign)",
 ]
-REQUIRED = {"tables_with_weights_normalised_by_hand": 10, "tables_retuned_live": 12, "tables_changed_in_mid_step": 300, "slots_after_a_change_in_mid_step": 3000, "steps_checked": 2000, "steps_nothing_due": 20, "zero_weight_due_steps": 50, "guard_refusals": 10, "dist_tests_resolved": 20, "min_count_steps": 200}
+REQUIRED = {"drivers_with_default_cycles": 5, "tables_with_weights_normalised_by_hand": 10, "tables_retuned_live": 12, "tables_changed_in_mid_step": 300, "slots_after_a_change_in_mid_step": 3000, "steps_checked": 2000, "steps_nothing_due": 20, "zero_weight_due_steps": 50, "guard_refusals": 10, "dist_tests_resolved": 20, "min_count_steps": 200}
 SHARD_TIMEOUT = {"quick": 600, "thorough": 2400}
 
 WEIGHTS = [0.0, 1e-9, 1.0, 1.0, 10.0, 1e6, 0.3]
@@ -99,9 +100,15 @@ def make_driver(kind, seed, cycles):
     atoms.calc = IdealGas()
     if kind == "MonteCarlo":
         return MonteCarlo(atoms, max_cycles=cycles, seed=seed)
+    # the configured number of cycles may also be the drivers' documented default, one cycle per atom (two atoms here):
+    # left alone for every other seed when that is the number wanted
+    ckw = {"max_cycles": cycles}
+    if cycles == len(atoms) and seed % 2 == 0:
+        ckw = {}
+        COUNTS["drivers_with_default_cycles"] = COUNTS.get("drivers_with_default_cycles", 0) + 1
     if kind == "Canonical":
-        return Canonical(atoms, temperature=300.0, max_cycles=cycles, seed=seed)
-    return GrandCanonical(atoms, exchange_atoms=Atoms("Ar"), temperature=300.0, max_cycles=cycles, seed=seed)
+        return Canonical(atoms, temperature=300.0, seed=seed, **ckw)
+    return GrandCanonical(atoms, exchange_atoms=Atoms("Ar"), temperature=300.0, seed=seed, **ckw)
 
 
 def gen_table(rng, cycles=None, allow_zero_only=False):
@@ -272,7 +279,7 @@ def run_tables(spec, rec):
     kinds = ["MonteCarlo", "MonteCarlo", "Canonical", "GrandCanonical"]
     for i in range(spec["n"]):
         for _ in range(50):
-            cycles, table = gen_table(rng)
+            cycles, table = gen_table(rng, cycles=2 if i % 8 == 6 else None)
             if all(due_ok(table, cycles, s) for s in range(spec["steps"])):
                 break
         else:
